@@ -12,3 +12,10 @@ RULE = ("same histories as C19; the verifier-call counter (hook: static incremen
 
 def nontrivial(case, model_out):
     return bool(tagbits(case) & (1 << 2)) and "6" in opcodes(case)
+
+
+from . import poolcommon as _pc
+
+
+def judge(case, model_out):
+    return _pc.judge_c22(case, model_out)
